@@ -26,10 +26,15 @@ fn run_repl() {
                 return;
             }
             Ok(_) => (),
-            // a line that can not be read (it is not UTF-8, say) is reported and skipped
-            Err(e) => {
+            // a line that is not UTF-8 is reported and skipped
+            Err(e) if e.kind() == io::ErrorKind::InvalidData => {
                 eprintln!("{e}");
                 continue;
+            }
+            // any other failure to read is the end of the session (it would fail again and again)
+            Err(e) => {
+                eprintln!("{e}");
+                return;
             }
         }
 
